@@ -139,3 +139,21 @@ func assignsToSel(rel, fn, sel string) []string {
 	})
 	return out
 }
+
+// assignsOp lists "lhs op rhs" of every assignment with the given operator token (e.g. "+=").
+func assignsOp(rel, fn, op string) []string {
+	fd := funcDecl(rel, fn)
+	f := load(rel)
+	if fd == nil || f == nil {
+		return nil
+	}
+	var out []string
+	ast.Inspect(fd.Body, func(n ast.Node) bool {
+		as, ok := n.(*ast.AssignStmt)
+		if ok && as.Tok.String() == op && len(as.Lhs) == 1 && len(as.Rhs) == 1 {
+			out = append(out, exprStr(f.fset, as.Lhs[0])+" "+op+" "+exprStr(f.fset, as.Rhs[0]))
+		}
+		return true
+	})
+	return out
+}
